@@ -517,6 +517,7 @@ theorem foldl_setInsert_pairwise {β : Type} (f : β → Nat) : ∀ (l : List β
 def _root_.SH.Transfer.Event.hostNorm : Event α → Prop
   | .counter _ host _ => host.isNorm = true
   | .values _ _ _ host _ _ => host.isNorm = true
+  | .valuesLegacy _ _ _ host _ _ => host.isNorm = true
   | .valuePct _ _ host _ _ => host.isNorm = true
   | .unique _ _ host _ => host.isNorm = true
 
@@ -537,6 +538,13 @@ theorem applyEvent_WF (m : MultiValue α) (e : Event α) (wf : WFm m) (he : e.ho
       · split
         · exact ⟨hm, wu⟩
         · exact ⟨hm, wu⟩
+  | valuesLegacy hist vals c host pick pct =>
+    have hm := itemMerge_WFv m.v (tmpOfValues hist vals (defaultCount c (totalCount hist vals)) (totalCount hist vals) host) pick wv
+      (tmpOfValues_WFv _ _ _ _ host he)
+    simp only [applyEvent, applyValuesLegacy]
+    split
+    · exact ⟨wv, wu⟩
+    · exact ⟨hm, wu⟩
   | valuePct x c host pick pct =>
     have hm := addOnlyValue_WFv _ x c host (addCounterHost_WFv m.v c host pick wv he) he
     simp only [applyEvent, addValuePct]
@@ -1513,6 +1521,18 @@ example : mergeTL Variant.fixed MultiValue.empty (toTL Variant.fixed hostRow 1 f
 example : (mergeTL Variant.fixed MultiValue.empty
     (toTL Variant.fixed (applyEvent (MultiValue.empty : MultiValue Int) (.unique [(1, 11), (5, 55)] 0 Tag.none false)) 1 true [])
     ⟨1000, []⟩ false).mv.dg = some [⟨1, 2⟩] := by decide
+
+/-- the shape of seeded change C02-r6-2: a legacy-path percentile row whose values are all 0 (it HAS a digest: one
+    centroid (0, 1)) plus a counter-only event (count 3).  The tree sends the explicit centroid list — the aggregator
+    holds weight 1·sf; sending the implicit flag instead would restore the whole count 3·sf. -/
+def legacyZeroRow : MultiValue Int :=
+  applyEvent (applyEvent MultiValue.empty (.valuesLegacy [] [0] 0 Tag.none false true)) (.counter 2 Tag.none false)
+
+example : legacyZeroRow.dg = some [⟨0, 1⟩] ∧ legacyZeroRow.v.counter = 3 ∧ compact Variant.fixed legacyZeroRow.v = true ∧
+    (toTL Variant.fixed legacyZeroRow 2 true [⟨0, 1⟩]).cents = some [⟨0, 2⟩] ∧
+    (toTL Variant.fixed legacyZeroRow 2 true [⟨0, 1⟩]).implicit = false ∧
+    (mergeTL Variant.fixed MultiValue.empty (toTL Variant.fixed legacyZeroRow 2 true [⟨0, 1⟩]) ⟨1000, []⟩ false).mv.dg =
+      some [⟨0, 2⟩] := by decide
 
 end witnesses
 
